@@ -11,27 +11,53 @@ HIDS = {"f0": 10, "f1": 11, "f2": 12, "f3": 13}
 def n(x): return ("n", Fraction(x))
 RET = [n(0), n(1), n(2), n(5), ("b", True), ("b", False), ("b", True), n(3)]
 
+OLD_OPS = ["+", "==", "&&", "||", "*", "<"]
+ALL_OPS = ["+", "-", "*", "/", "%", "<", "<=", ">", ">=", "==", "!=", "&&", "||", "|", "^", "&", "<<", ">>", "beginWith", "endWith", "in"]
+SETTERS = ["=", "+=", "-=", "*=", "/=", "%=", "<<=", ">>=", "&=", "^=", "|="]
+
+def leaf(rng):
+    q = rng.random()
+    if q < 0.35: return ("ref", rng.choice(FN))                       # bare name -> context function call
+    if q < 0.6: return ("call", rng.choice(FN + list(GLOBALS)), [])
+    if q < 0.8: return ("lit", rng.choice(["1", "2", "true", "false", "0"]))
+    return ("ref", rng.choice(["v", "w"]))
+
+def plain_item(rng):
+    """what a membership list is usually written with: a literal, a variable, or a bare name bound to a context function"""
+    q = rng.random()
+    if q < 0.4: return ("lit", rng.choice(["0", "1", "2", "3", "4", "5", "true", "false"]))
+    if q < 0.55: return ("ref", rng.choice(["v", "w"]))
+    return ("ref", rng.choice(FN))
+
 def rnd_tree(rng, depth):
     r = rng.random()
     if depth <= 0 or r < 0.3:
-        q = rng.random()
-        if q < 0.35: return ("ref", rng.choice(FN))                       # bare name -> context function call
-        if q < 0.6: return ("call", rng.choice(FN + list(GLOBALS)), [])
-        if q < 0.8: return ("lit", rng.choice(["1", "2", "true", "false", "0"]))
-        return ("ref", rng.choice(["v", "w"]))
-    if r < 0.5:
+        return leaf(rng)
+    if r < 0.47:
         return ("call", rng.choice(FN + list(GLOBALS)), [rnd_tree(rng, depth - 1) for _ in range(rng.randint(1, 3))])
-    if r < 0.65: return ("tern", rnd_tree(rng, depth - 1), rnd_tree(rng, depth - 1), rnd_tree(rng, depth - 1))
-    if r < 0.8: return ("bin", rng.choice(["+", "==", "&&", "||", "*", "<"]), rnd_tree(rng, depth - 1), rnd_tree(rng, depth - 1))
+    if r < 0.5:
+        return ("call", rng.choice(["min", "max", "sum", "mul"]), [rnd_tree(rng, depth - 1) for _ in range(rng.randint(1, 3))])
+    if r < 0.62: return ("tern", rnd_tree(rng, depth - 1), rnd_tree(rng, depth - 1), rnd_tree(rng, depth - 1))
+    if r < 0.74:
+        op = rng.choice(OLD_OPS) if rng.random() < 0.75 else rng.choice(ALL_OPS)
+        return ("nbin" if rng.random() < 0.1 else "bin", op, rnd_tree(rng, depth - 1), rnd_tree(rng, depth - 1))
+    if r < 0.8:
+        # membership in a list written in place: every item is evaluated, matching or not, in order
+        items = [plain_item(rng) for _ in range(rng.randint(1, 4))]
+        if rng.random() < 0.3: items[rng.randrange(len(items))] = rnd_tree(rng, depth - 1)
+        lhs = rng.choice([plain_item(rng), ("lit", rng.choice(["0", "1", "2", "5"])), rnd_tree(rng, depth - 1)])
+        return ("nbin" if rng.random() < 0.3 else "bin", "in", lhs, ("list", items))
     if r < 0.87: return ("list", [rnd_tree(rng, depth - 1) for _ in range(rng.randint(0, 3))])
-    if r < 0.92: return ("map", [(rnd_tree(rng, depth - 1), rnd_tree(rng, depth - 1)) for _ in range(rng.randint(1, 2))])
-    if r < 0.96: return ("un", rng.choice(["!", "-"]), rnd_tree(rng, depth - 1))
-    return ("bin", rng.choice(["=", "+="]), ("ref", rng.choice(["v", "w"])), rnd_tree(rng, depth - 1))
+    if r < 0.91: return ("map", [(rnd_tree(rng, depth - 1), rnd_tree(rng, depth - 1)) for _ in range(rng.randint(1, 2))])
+    if r < 0.94: return ("un", rng.choice(["!", "-", "-", "not", "+", "AND", "OR"] if rng.random() < 0.4 else ["!", "-"]), rnd_tree(rng, depth - 1))
+    if r < 0.96: return ("post", rnd_tree(rng, depth - 1), rng.choice(["++", "--"]))
+    return ("bin", rng.choice(["=", "+="]) if rng.random() < 0.6 else rng.choice(SETTERS), ("ref", rng.choice(["v", "w"])), rnd_tree(rng, depth - 1))
 
 class P:
     prop = "C07"
     rule = ("EXEC of random trees (<= ~40 nodes) whose leaves are calls to logging, stateful context functions (by call and by bare "
-            "name) and globally registered functions whose return values depend on their own call count, under every node kind "
+            "name) and globally registered functions whose return values depend on their own call count, under every node kind and every "
+            "built-in operator, aggregate function and setter (membership lists written in place with matching items before calls), "
             "(operands, call arguments, list elements, map entries key/value, statements, conditionals), and the same trees with an "
             "Err injected at the k-th handler invocation for every k (fault enumeration). Oracle: the call log (handler, arguments) "
             "in order, the result and the final context equal those of the reference semantics. One fresh process per case. "
@@ -44,7 +70,7 @@ class P:
 
     def generate(self, tier, rng):
         PT = progs.prec_table()
-        ntrees = 250 if tier == "quick" else 20000
+        ntrees = 400 if tier == "quick" else 20000
         items = []
         for _ in range(ntrees):
             stmts = [rnd_tree(rng, rng.choice([2, 3, 4])) for _ in range(rng.choice([1, 1, 2, 3]))]
